@@ -1,9 +1,16 @@
 #!/usr/bin/env python3
-"""Print the DESIGN §6.4 table (seeded changes vs checks) from seeded/*/meta.json."""
-import json, glob, os
+"""Print a DESIGN §6.4 table (seeded changes vs checks) from seeded/*/meta.json.  usage: gen_seed_table.py [r1|r2]"""
+import json, glob, os, sys
+which = sys.argv[1] if len(sys.argv) > 1 else "r1"
 rows = []
 for m in sorted(glob.glob(os.path.join(os.path.dirname(os.path.dirname(os.path.abspath(__file__))), "seeded", "*", "meta.json"))):
     d = json.load(open(m))
-    rows.append("| %s-%s | %s | %s |" % (d["property"], d["variant"], d["needs_to_manifest"].replace("|", "/"), d["check_result"].replace("|", "/")))
+    r2 = d["variant"].startswith("r2")
+    if r2 != (which == "r2"):
+        continue
+    needs = " ".join(d["needs_to_manifest"].replace("|", "/").replace("`", "").split())
+    if len(needs) > 260:
+        needs = needs[:257].rsplit(" ", 1)[0] + " …"
+    rows.append("| %s-%s | %s | %s |" % (d["property"], d["variant"], needs, d["check_result"].replace("|", "/")))
 print("| seeded change | needs in order to manifest | result of the property's check |\n|---|---|---|")
 print("\n".join(rows))
